@@ -7,7 +7,7 @@
 import json, os, re, shutil, subprocess, sys, time
 
 ROOT = os.path.dirname(os.path.dirname(os.path.abspath(__file__)))
-WT = '/tmp/mutwt'
+WT = '/root/seedwork/mutwt'
 ENV = dict(os.environ, CARGO_NET_OFFLINE='true')
 
 
